@@ -1042,6 +1042,9 @@ func GoMod(r *rand.Rand, o ModOpts) *ModDoc {
 				hi = strings.TrimSuffix(hi, "+incompatible")
 				iv.HighCanon, iv.High = hi, d.version(r, o, hi)
 				toks = []string{"[", l.tok(iv.Low, o.Plain), ",", l.tok(iv.High, o.Plain), "]"}
+			} else if r.IntN(3) == 0 {
+				// a one-version interval written out, both bounds with the very same (possibly short) text
+				toks = []string{"[", l.tok(iv.Low, o.Plain), ",", l.tok(iv.High, o.Plain), "]"}
 			}
 			it := modItem{toks: toks}
 			if !o.NoComments {
